@@ -113,8 +113,8 @@ func (r *yieldRewriter) rewriteRanges(block *ast.BlockStmt) {
 					// at most one iteration variable and len(x) is constant: the range expression isn't evaluated
 					// (for i := range p.arr is fine with a nil p, for i := range grid[9] with a short grid),
 					// only the keys 0..len(x)-1 are produced. evaluating a plain variable can't fail, it's still sliced
-					length := &ast.BasicLit{Kind: token.INT, Value: strconv.FormatInt(ty.Len(), 10)}
-					do(cstNewIntegerIter, length)
+					// (len(x) instead of the length itself: x may be the only use of a variable)
+					do(cstNewIntegerIter, X.Call(X.Ident("len"), n.X))
 					return true
 				}
 				// typing workaround for abstract generic array iter
